@@ -36,11 +36,14 @@ ASSUME = [
     'stream tolerances: reported logLike/g/H/bhhh vs recomputation by a fresh BIOGEME object: relative 1e-12 of the scale '
     '(same engine, one thread: differences come only from the evaluation path); vs an independent numpy evaluation of the '
     'logit likelihood: 1e-9 relative of the sum of absolute terms; final >= init up to 1e-9 relative',
-    'stationarity and agreement are properties of EXTERNAL optimisers with their own stopping rules '
-    '(biogeme_optimization: relative projected gradient <= tolerance = eps^(1/4) ~ 1.2e-4, or relative step <= 1e-5; '
-    'scipy L-BFGS-B: projected gradient <= 1e-7 or relative decrease <= eps): the stream accepts relative projected '
-    'gradient max_i |pg_i| max(|x_i|,1) / max(|L|,1) <= 1e-3 and maxima agreeing to 1e-5 relative -- looser than the '
-    'stopping rules, far tighter than any wrong sign / dropped bound / wrong point',
+    'stationarity and agreement are properties of EXTERNAL optimisers with their own stopping rules (biogeme_optimization: '
+    'relative projected gradient max_i |pg_i| max(|x_i|,1) / max(|f(x*)|,|f(x0)|,1) <= tolerance = eps^(1/4) ~ 1.2e-4, or relative '
+    'step <= 1e-5; scipy L-BFGS-B: projected gradient <= 1e-7 or relative decrease <= eps).  The stream accepts that same relative '
+    'projected gradient up to 1e-3 when convergence is reported (8 times the stopping rule; a wrong sign / dropped bound / wrong '
+    'point gives 1e-2..1).  Maxima are compared to 1e-5 relative, but only between converged runs whose own estimated distance to '
+    'the maximum (1.25 sum |g_i pg_i|: first order on coordinates held by a bound, second order elsewhere, curvature >= 0.4 '
+    'guaranteed by the generator) is below 1e-6 |L|; runs the optimiser stopped earlier than that are skipped and counted '
+    '(agreement_skipped_loosely_converged in the evidence)',
     'generated problems are binary / multinomial logit models linear in 1-3 parameters (concave log likelihood) on 30-80 rows '
     'of dyadic data, filtered (by a numpy Newton iteration in the harness) to have a finite maximum',
 ]
@@ -1088,7 +1091,11 @@ def check_run(problem, run, r):
             strict = max(strict, abs(pg) * max(abs(xi), 1.0) / max(abs(L), 1.0))
         info['relpg'] = worst
         info['relpg_strict'] = strict
-        info['relg_free_strict'] = max(abs(gi) * max(abs(xi), 1.0) / max(abs(L), 1.0) for xi, gi in zip(x, g))
+        # estimated distance L* - L(x*) to the maximum, used to decide which runs are precise enough to be compared with each
+        # other: first order on coordinates held by a bound (g_i * room left), second order elsewhere (1/2 g'(-H)^-1 g with the
+        # smallest eigenvalue of -H >= 0.4 guaranteed by the generator): 1.25 * sum |g_i * pg_i|
+        info['gap_box'] = 1.25 * sum(abs(gi * pg) for gi, pg in zip(g, pgs))
+        info['gap_free'] = 1.25 * sum(gi * gi for gi in g)
         if worst > 1e-3:
             out.append(Finding('stationarity', f'convergence is reported by {alg} but the relative projected gradient is {worst:.3g} > 1e-3',
                                'gradient ~ 0 in every direction not blocked by an active bound',
@@ -1178,21 +1185,22 @@ def evaluate(ctx, st, problems, runs, results):
     for i, (run, info) in enumerate(zip(runs, infos)):
         if not info.get('converged') or 'L' not in info:
             continue
-        # only runs that are stationary to 1e-4 relative to |L(x*)| itself are compared: with the curvature the generator
-        # guarantees (smallest eigenvalue of -H >= 0.4) their distance to the maximum is < 1e-6 relative, so that the
-        # 1e-5 threshold is safe; runs stopped by the optimiser's looser normalisation (|f(x0)| >> |f(x*)|) are skipped
-        if info.get('relpg_strict', 1.0) > 1e-4:
+        # only runs whose estimated distance to the maximum is below 1e-6 |L| are compared (so that the 1e-5 threshold is safe):
+        # the stopping rules of the optimisers are looser than that (relative gradient normalised by |f(x0)|, a coordinate
+        # stopped just short of a bound with a large outward gradient) -- such runs are skipped and counted
+        tol_gap = 1e-6 * max(1.0, abs(info['L']))
+        in_box_class = run['algorithm'] in SUPPORTS_BOUNDS and info.get('gap_box', 1.0) <= tol_gap
+        in_free_class = info.get('gap_free', 1.0) <= tol_gap
+        if not (in_box_class or in_free_class):
             skipped += 1
             continue
         # same problem = same data and model, same declared bounds, same values of the fixed parameters
         g = (run['pid'], tuple(sorted((q['name'], q['lb'], q['ub'], q['init'] if q['fixed'] else None) for q in run['params'])))
         # the algorithms that receive the bounds solve the problem on the box; the others the unconstrained problem.  A point of
         # the box where the whole gradient vanishes is a maximum of both (concave L): such a run belongs to both classes
-        if run['algorithm'] in SUPPORTS_BOUNDS:
+        if in_box_class:
             groups.setdefault((g, 'box'), []).append(i)
-            if info.get('relg_free_strict', 1.0) <= 1e-4:      # the full gradient vanishes: also an unconstrained maximum
-                groups.setdefault((g, 'free'), []).append(i)
-        else:
+        if in_free_class:       # the whole gradient vanishes: an unconstrained maximum (also of the box if the point is inside)
             groups.setdefault((g, 'free'), []).append(i)
     worst = 0.0
     for (g, cls), idxs in groups.items():
@@ -1230,10 +1238,11 @@ def load_corpus():
 def stream_estimate(ctx, n_problems=None, only=None, name='estimate'):
     st = ctx.stream(name, 'generated concave problems (binary / 3-alternative logit linear in 1-3 free parameters, optional fixed parameter, '
                     '30-80 rows of dyadic data, finite maximum checked by a numpy Newton iteration) x bound configurations '
-                    '(none / inactive / active at the optimum / one-sided) x feasible starting points (zero, random, near the optimum, far, '
-                    'on a bound; 12% through a restart file) x shared or per-occurrence Beta objects x EVERY name of optimization.algorithms '
-                    '+ automatic; non-trivial = convergence reported and the estimates differ from the start; distinct by '
-                    '(model, parameters, start, bounds, algorithm)')
+                    '(none / inactive / active at the optimum / one-sided; for some problems also one parameter pinned by lb == ub) x feasible '
+                    'starting points (zero, random, near the optimum, far, on a bound; 12% through a restart file __<model>.iter) x shared or '
+                    'per-occurrence Beta objects x EVERY name of optimization.algorithms + automatic; 12% of the combinations through '
+                    'quick_estimate(); corpus/C07 first; non-trivial = convergence reported and the estimates differ from the start; '
+                    'distinct by (model, parameters, start, bounds, algorithm)')
     algorithms = algorithm_names()
     problems, runs = {}, []
     if only is not None:
@@ -1253,7 +1262,7 @@ def stream_estimate(ctx, n_problems=None, only=None, name='estimate'):
                 pid = f'c{k}'
                 problems[pid] = w['problem']
                 for run in w['runs']:
-                    for a in algorithms:
+                    for a in (algorithms if run.get('algorithm') in (None, '*') else [run['algorithm']]):
                         r2 = {kk: vv for kk, vv in run.items() if kk != 'readable'}
                         r2.update({'pid': pid, 'algorithm': a})
                         r2['tags'] = dict(run.get('tags') or {})
